@@ -1,5 +1,5 @@
 """Contracts for xdoctest/doctest_example.py."""
-from pyvc.contracts import contract, lemma, record, LoopSpec
+from pyvc.contracts import contract, lemma, record, dict_record, LoopSpec
 import contracts.doctest_part  # noqa: DoctestPart record, callee contracts
 
 # The fields of a DocTest that the functions under contract read or write.
@@ -7,7 +7,12 @@ record("DocTest",
        lineno="int",
        exc_info="Optional[tuple[Val,Exc[BaseException],Val]]",
        failed_part="DoctestPart|'<IMPORT>'",
-       failed_tb_lineno="Optional[int]")
+       failed_tb_lineno="Optional[int]",
+       warn_list="Optional[Val]",
+       callname="str", num="int", docsrc="str", mode="str", modpath="str", config="Val")
+
+# the dict returned by DocTest.run / _post_run (only the verdict keys are tracked)
+dict_record("RunSummary", passed="bool", failed="bool", skipped="bool")
 
 _Q = "xdoctest.doctest_example:DocTest."
 _E = "self.exc_info[1]"
@@ -45,3 +50,38 @@ contract(_Q + "failed_lineno",
                                    "result == self.lineno + self.failed_part.line_offset + self.failed_tb_lineno - 1)")],
          props=["C08", "C09"], gen="doctest_failures",
          sentinel=("relative-not-absolute", "implies(self.exc_info is not None and self.failed_part == '<IMPORT>', result == 0)"))
+
+
+# ------------------------------------------------------------------------ run (interface used by the callers)
+contract(_Q + "run",
+         params={"self": "DocTest", "verbose": "Optional[int]", "on_error": "Optional[str]"}, returns="RunSummary",
+         trusted=True,
+         ensures=[("one-verdict", "(result['passed'] and not result['failed'] and not result['skipped']) or "
+                                  "(not result['passed'] and result['failed'] and not result['skipped']) or "
+                                  "(not result['passed'] and not result['failed'] and result['skipped'])")],
+         raises={"KeyboardInterrupt?": None, "SystemExit?": None, "Skipped?": None,
+                 "Exception*?": "on_error != 'return'"},
+         props=["C09", "C10", "C15"],
+         note="interface of run as its callers see it: exactly one verdict; with on_error='return' no exception of class "
+              "Exception escapes (C09.noraise)")
+
+
+# ------------------------------------------------------------------------ C10: force-disable
+contract(_Q + "is_disabled",
+         params={"self": "DocTest", "pytest": "bool"}, returns="bool",
+         modifies=[],
+         ensures=[("first-line-marker", "result == S.force_disabled(self.docsrc, pytest)")],
+         props=["C10", "C15"], opts={"native": False},
+         sentinel=("never-disabled", "not result"))
+
+
+_CMD = "'python -m xdoctest ' + self.modpath + ' ' + self.callname + ':' + str(self.num)"
+contract(_Q + "node", params={"self": "DocTest"}, returns="str", trusted=True, log=False,
+         note="T: presentation string built from the class name and __nice__")
+contract(_Q + "cmdline",
+         params={"self": "DocTest"}, returns="str", modifies=[],
+         ensures=[("native", "implies(self.mode == 'native', result == " + _CMD + ")")],
+         raises={"KeyError": "self.mode != 'native' and self.mode != 'pytest'"},
+         props=["C10"], log=False,
+         opts={"native": False, "functional": _CMD, "defined_when": "self.mode == 'native'"},
+         note="functional for native-mode doctests: the command line names the doctest by path and callname:num")
